@@ -18,7 +18,9 @@ VERIF = os.path.dirname(os.path.dirname(os.path.abspath(__file__)))
 BENIGN_PROPS = {"cache": ["C19"], "ident": ["C18"], "mdstore": ["C16"], "request": ["C10", "C03"], "redirect": ["C15"],
                 "response": ["C04", "C05", "C17", "C08"], "entity": ["C02", "C08", "C17", "C20", "C05"],
                 "sigver": ["C02", "C03", "C20", "C17", "C10", "C08"], "policy": ["C08", "C17", "C02"],
-                "timeutil": ["C04", "C19", "C10", "C05"], "advice": ["C17", "C20", "C02", "C05", "C08"]}
+                "timeutil": ["C04", "C19", "C10", "C05"], "advice": ["C17", "C20", "C02", "C05", "C08"],
+                "parse": ["C20", "C17", "C02", "C05", "C03"], "config": ["C02", "C05", "C10"], "redirectsig": ["C15"],
+                "nameid": ["C18"], "mdquery": ["C16"]}
 
 
 def run_check(prop, src, out):
